@@ -43,7 +43,7 @@ if not os.path.exists(os.path.join(bdir, "build.ninja")):
     if rc:
         sys.exit("cmake configure failed: " + out[-2000:])
 
-DEMO = "clang++ -std=gnu++17 -g -O1 -fsanitize=address,undefined -fno-sanitize-recover=undefined -I%s/include %s -o %s -lpng -ljpeg -ltiffxx -ltiff -lz -pthread"
+DEMO = "clang++ -std=gnu++17 -g -O1 -fsanitize=address,undefined -fno-sanitize-recover=undefined -fno-sanitize=pointer-overflow -I%s/include %s -o %s -lpng -ljpeg -ltiffxx -ltiff -lz -pthread"
 for i in ids:
     d = os.path.join(VERIF, "seeded", i)
     patch = os.path.join(d, "patch.diff")
